@@ -133,7 +133,7 @@ func genChain(r *rand.Rand) any {
 			}
 		case k == 4 || k == 5:
 			n := pickF(r, chainNums)
-			u := chainFontU[r.Intn(2)] // em, rem only: ex / ch on font-size is the known defect ex-ch-recursion (process-fatal)
+			u := chainFontU[r.Intn(len(chainFontU))]
 			fs = expectPx("fontsize", u, n, 0, parentFS, rootFS, isRoot)
 			fsExp.Decl, fsExp.RelUse = fmtNum(n)+u, true
 		case k == 6:
@@ -259,9 +259,6 @@ func genChain(r *rand.Rand) any {
 		case k == 7:
 			n := pickF(r, chainNums)
 			u := chainFontU[r.Intn(len(chainFontU))]
-			if isRoot && u == "rem" {
-				u = "em" // known defect rem-on-root: kept out
-			}
 			lh = lhState{"px", expectPx("lineheight", u, n, fs, parentFS, rootFS, isRoot)}
 			lhExp.Decl, lhExp.RelUse = fmtNum(n)+u, true
 		case k == 8:
@@ -303,9 +300,6 @@ func genChain(r *rand.Rand) any {
 				case k == 4 || k == 5:
 					n := pickF(r, chainNums)
 					u := chainFontU[r.Intn(len(chainFontU))]
-					if isRoot && u == "rem" {
-						u = "em" // known defect rem-on-root: kept out
-					}
 					cur = lenState{v: expectPx("", u, n, fs, parentFS, rootFS, isRoot)}
 					e.Decl, e.RelUse = fmtNum(n)+u, true
 				case k == 6:
